@@ -41,6 +41,8 @@ def _const_number(P, module, node, f):
 
 def check(run):
     P = run.program
+    from ..rules import consts as _consts
+    _consts.check(run, P)
     run.explanation = (
         "Boolean dominance over the control flow of gca_gca_intersection: for each res.append(p) the conjunction of enclosing conditions must contain point_within_gca(p, arc1) and point_within_gca(p, arc2) "
         "(parallel branch: p is an endpoint of one arc, membership in the other suffices). The parallel-planes tolerance is folded from uxarray/constants.py and compared with a bound derived from the property's own margin. "
@@ -52,6 +54,7 @@ def check(run):
     _tolerances_explicit(run, P)
     from ..rules import sqtol
     sqtol.check(run, P, GEOMETRY_FILES)
+    _wrappers_forward(run, P)
     _argument_roles(run, P)
     _on_circle_tolerance(run, P)
     _pole_latitude(run, P)
@@ -364,3 +367,46 @@ def _argument_roles(run, P):
     if not bad:
         run.holds("F-SIG/argument-roles", "geometry-kernels:no-exchanged-arguments", "-", f"{n} calls to package functions: no pair of same-named arguments is exchanged")
     run.floor("F-SIG/argument-roles", n, 50)
+
+
+def _wrappers_forward(run, P):
+    """The njit wrappers isclose/allclose of utils/computing.py hand `rtol` and `atol` to numpy exactly as they received them.  Every explicit tolerance in the geometry
+    kernels (rtol=0.0 in particular: "absolute comparison only") goes through these two functions; `rtol or DEFAULT`, `max(rtol, ...)`, a swapped pair or a dropped
+    argument changes all of them at once."""
+    n = 0
+    for name in ("isclose", "allclose"):
+        f = P.try_func(f"uxarray/utils/computing.py:{name}")
+        c = f"uxarray/utils/computing.py:{name}:tolerances-forwarded"
+        if f is None:
+            run.incomplete("F-SIG/tolerance-wrappers", c, "-", "wrapper not found")
+            continue
+        calls = [x for x in ast.walk(f.node) if isinstance(x, ast.Call) and (dotted(x.func) or [""])[-1] == name and (dotted(x.func) or [""])[0] in ("np", "numpy")]
+        if not calls:
+            run.incomplete("F-SIG/tolerance-wrappers", c, where(f), f"no call of numpy's {name} in the wrapper")
+            continue
+        rebound = [p_ for p_ in ("rtol", "atol") if any(isinstance(x, ast.Name) and x.id == p_ and isinstance(x.ctx, ast.Store) for x in ast.walk(f.node))]
+        for call in calls:
+            n += 1
+            got = {}
+            for i, a in enumerate(call.args):
+                if i >= 2:
+                    got[("rtol", "atol")[i - 2]] = a if i - 2 < 2 else None
+            for k in call.keywords:
+                if k.arg in ("rtol", "atol"):
+                    got[k.arg] = k.value
+            probs = []
+            for p_ in ("rtol", "atol"):
+                if p_ not in f.params():
+                    probs.append(f"the wrapper has no parameter {p_}")
+                elif p_ not in got:
+                    probs.append(f"{p_} is not handed to numpy (numpy's default applies whatever the caller passes)")
+                elif not (isinstance(got[p_], ast.Name) and got[p_].id == p_):
+                    probs.append(f"{p_}={norm(got[p_])[:40]} instead of the caller's value (an explicit 0.0 is falsy: `x or default` replaces it)")
+                elif p_ in rebound:
+                    probs.append(f"{p_} is rebound inside the wrapper")
+            if probs:
+                run.violation("F-SIG/tolerance-wrappers", c, where(f, call), "; ".join(probs))
+            else:
+                run.holds("F-SIG/tolerance-wrappers", c, where(f, call), "rtol and atol forwarded unchanged")
+    run.floor("F-SIG/tolerance-wrappers", n, 2)
+
